@@ -38,7 +38,7 @@ var reasons = map[interp.DebugEventReason]string{
 // policy[i%len] is the request issued at the i-th stop ("continue", "into", "over", "out").
 // setAt says when breakpoints are installed: "before" the first request, or at the "entry"
 // stop obtained by an initial step-into (the way a DAP client does it).
-func debugRun(src string, breaks []int, fbreaks []string, policy []string, maxStops int, setAt string) (s session) {
+func debugRun(src string, breaks []int, fbreaks []string, policy []string, maxStops int, setAt, calls string) (s session) {
 	var out bytes.Buffer
 	i := interp.New(interp.Options{Stdout: &out, Stderr: new(bytes.Buffer)})
 	i.Use(stdlib.Symbols)
@@ -68,16 +68,39 @@ func debugRun(src string, breaks []int, fbreaks []string, policy []string, maxSt
 			stops <- stop{ev, e.GoRoutine()}
 		}
 	}, nil)
-	var reqs []interp.BreakpointRequest
+	var lreqs, freqs []interp.BreakpointRequest
 	for _, l := range breaks {
-		reqs = append(reqs, interp.LineBreakpoint(l))
+		lreqs = append(lreqs, interp.LineBreakpoint(l))
 	}
 	for _, f := range fbreaks {
-		reqs = append(reqs, interp.FunctionBreakpoint(f))
+		freqs = append(freqs, interp.FunctionBreakpoint(f))
+	}
+	set := func(reqs ...interp.BreakpointRequest) {
+		dbg.SetBreakpoints(interp.ProgramBreakpointTarget(prog), reqs...)
 	}
 	install := func() {
-		if len(reqs) > 0 {
-			dbg.SetBreakpoints(interp.ProgramBreakpointTarget(prog), reqs...)
+		all := append(append([]interp.BreakpointRequest{}, lreqs...), freqs...)
+		if len(all) == 0 {
+			return
+		}
+		switch calls {
+		case "split":
+			set(lreqs...)
+			set(freqs...)
+		case "split-rev":
+			set(freqs...)
+			set(lreqs...)
+		case "plus-empty":
+			set(all...)
+			set()
+		case "plus-unknown":
+			set(all...)
+			if len(freqs) == 0 {
+				// a request of the function kind replaces the function breakpoints: only when there is none to lose
+				set(interp.FunctionBreakpoint("noSuchFunction"))
+			}
+		default:
+			set(all...)
 		}
 	}
 	if setAt != "entry" {
